@@ -464,6 +464,12 @@ func readsRegistry(p *Program, g *ssa.Function, elem string) bool {
 				return true
 			}
 		}
+		// or the registry map itself is handed in (buildNotesRoot(manager.footnotes))
+		if mt, ok := par.Type().Underlying().(*types.Map); ok {
+			if n := namedOf(mt.Elem()); n != nil && n.Obj().Name() == elem {
+				return true
+			}
+		}
 	}
 	fs := []*ssa.Function{g}
 	for h := range p.staticReach(g) {
